@@ -543,6 +543,10 @@ pub fn control_bodies() -> Vec<(String, Vec<u8>)> {
     big.extend(rec(7, &pat(1017, 1)));
     big.extend(rec(8, &ascii(250, 1)));
     out.push(("big".into(), big));
+    // bodies too short to hold any AVP record (1..5 octets): accepted with an empty AVP list, still consumed entirely
+    for n in 1..=5usize {
+        out.push((format!("short-{n}"), pat(n, n)));
+    }
     out
 }
 
